@@ -406,21 +406,18 @@ func (s *Server) Modify(ms spb.GRIBI_ModifyServer) error {
 // Get implements the gRIBI Get RPC.
 func (s *Server) Get(req *spb.GetRequest, stream spb.GRIBI_GetServer) error {
 	msgCh := make(chan *spb.GetResponse)
-	errCh := make(chan error)
-	doneCh := make(chan struct{})
+	// errCh and doneCh are buffered such that the goroutine that performs the
+	// Get can always complete when this function has already returned.
+	errCh := make(chan error, 1)
+	doneCh := make(chan struct{}, 1)
 	stopCh := make(chan struct{})
 
-	// defer a function to stop the goroutine and close all channels, since this will be called
-	// when we exit, then it will stop the goroutine that we started to do
-	// the get in the case that we exit due to some error.
-	defer func() {
-		// Non-blocking write to the stopCh, since if the goroutine has
-		// already returned then it won't be listening and we'll deadlock.
-		select {
-		case stopCh <- struct{}{}:
-		default:
-		}
-	}()
+	// defer a function to stop the goroutine that we started to do the get in the
+	// case that we exit due to some error. Closing the channel (rather than writing
+	// to it) ensures that the goroutine observes the signal even if it is currently
+	// blocked handing a response to us -- otherwise it would block forever whilst
+	// holding the lock on the RIB.
+	defer close(stopCh)
 
 	go s.doGet(req, msgCh, doneCh, stopCh, errCh)
 
@@ -429,6 +426,13 @@ func (s *Server) Get(req *spb.GetRequest, stream spb.GRIBI_GetServer) error {
 	for !done {
 		select {
 		case <-doneCh:
+			// An error is always written before the completion signal, so check
+			// for one in order that it is not lost.
+			select {
+			case err := <-errCh:
+				return status.Errorf(codes.Internal, "cannot generate GetResponse, %v", err)
+			default:
+			}
 			done = true
 		case err := <-errCh:
 			return status.Errorf(codes.Internal, "cannot generate GetResponse, %v", err)
@@ -1102,6 +1106,7 @@ func (s *Server) doGet(req *spb.GetRequest, msgCh chan *spb.GetResponse, doneCh,
 		filter[v] = true
 	default:
 		errCh <- status.Errorf(codes.Unimplemented, "AFTs other than IPv4, MPLS, IPv6, NHG and NH are unimplemented, requested: %s", v)
+		return
 	}
 
 	for _, ni := range netInstances {
